@@ -78,8 +78,13 @@ def parse(h, tower=False, overrides=None) -> Node:
         return Node('any', hint=h)
     if hasattr(h, '__supertype__') and callable(h):          # NewType
         return P(h.__supertype__)
+    TAT = getattr(typing, 'TypeAliasType', None)
+    if TAT is not None and isinstance(h, TAT):                # PEP 695 alias: means its value
+        return P(h.__value__)
     origin = typing.get_origin(h)
     args = typing.get_args(h)
+    if TAT is not None and isinstance(origin, TAT):           # subscripted generic alias
+        return P(_subst(origin.__value__, dict(zip(origin.__type_params__, args))))
     if origin is Annotated:
         return Node('annotated', kids=[P(args[0])], vals=list(h.__metadata__), hint=h)
     if origin is typing.Union or origin is getattr(types, 'UnionType', None):
@@ -148,6 +153,23 @@ def _generic(origin, args, h, tower, overrides):
         except Unsupported:
             raise
     return Node('generic', origin, kids=kids, hint=h)
+
+
+def _subst(h, sub):
+    """Substitute type variables in a typing object."""
+    if isinstance(h, typing.TypeVar):
+        return sub.get(h, h)
+    origin, args = typing.get_origin(h), typing.get_args(h)
+    if not args or origin is Literal:
+        return h
+    new = tuple(a if a is Ellipsis else _subst(a, sub) for a in args)
+    if new == args:
+        return h
+    if origin is typing.Union or origin is getattr(types, 'UnionType', None):
+        return typing.Union[new]
+    if origin is Annotated:
+        return Annotated[(new[0],) + tuple(h.__metadata__)]
+    return origin[new if len(new) != 1 else new[0]]
 
 
 def _resub(b, bargs):
